@@ -66,7 +66,17 @@ def check(run):
         elif v == 0:
             run.check(not after_fire, 'R4', 'cancel-return', T + '::cancel:return 0@%s' % ('after-fire' if after_fire else 'no-fire'), cn.loc(r), 'returns 0 although the abort was posted', 'returns 0 on a path without abort')
         else:
-            run.unrecognised('R4', 'cancel-return', T + '::cancel:return ' + q.render(cn, r.get('e')), cn.loc(r), 'return value is not the literal 0 or 1')
+            # a count computed before fire(): it must evaluate to 1 with a handler pending and 0 without, fire() must lie on the
+            # way to the return, and fire() itself must post exactly when a handler is pending
+            v1 = q.const_eval(cn, r.get('e'), lambda t: {'m_handler': True}.get(t))
+            v0 = q.const_eval(cn, r.get('e'), lambda t: {'m_handler': False}.get(t))
+            posts_ = [fl.site for fl in handlers.flows_in(fx, fr_) if fl.dest == 'post']
+            in_fire_ = bool(posts_) and all(any(handlers_is_slot_test(fr_, at) and pol for at, pol in q.guards_at(fr_, s_)) for s_ in posts_)
+            if v1 is not None and v0 is not None:
+                run.check(int(v1) == 1 and int(v0) == 0 and after_fire and in_fire_, 'R4', 'cancel-return', T + '::cancel:return ' + q.render(cn, r.get('e')), cn.loc(r),
+                          'the returned count (%s) is not 1 exactly when a pending handler was aborted' % q.render(cn, r.get('e')), 'evaluates to 1 with a handler pending and 0 without; fire() posts exactly then')
+            else:
+                run.unrecognised('R4', 'cancel-return', T + '::cancel:return ' + q.render(cn, r.get('e')), cn.loc(r), 'return value is not the literal 0 or 1')
     for f in fires:
         a = q.render(cn, f['args'][0]) if f.get('args') else ''
         run.check('operation_aborted' in a, 'R4', 'cancel-aborts', T + '::cancel', cn.loc(f), 'cancel fires the handler with %s, not operation_aborted' % a, 'fires with operation_aborted')
@@ -203,10 +213,10 @@ def sortedness_rules(run):
                       'the expiry stored by %s is %s, not the requested %s: timers then fire at (and are ordered by) a different instant than the one asked for - e.g. clamping overdue deadlines to now() makes them fire in arming order instead of deadline order' % (name, txt, want[0]),
                       'stores exactly the requested expiry')
         # return value is cancel()'s count
-        rets = q.returns(fn)
+        rets = q.returned_exprs(fn)         # through a re-arm helper spliced into this view
         okret = bool(rets)
-        for r in rets:
-            e = q.strip_casts(r.get('e'))
+        for r, e_ in rets:
+            e = q.strip_casts(e_)
             if is_node(e) and e['k'] == 'ref':
                 defs = [q.strip_casts(d) for _, d in q.local_defs(fn, e['did'])]
                 okret = okret and len(defs) == 1 and defs[0]['k'] == 'call' and (q.callee_name(defs[0]) or '').endswith('high_resolution_timer::cancel')
